@@ -506,19 +506,32 @@ func drive(args []string) int {
 		name := filepath.Join(dir, "replays", id, sanitize(k)+".json")
 		b, _ := json.MarshalIndent(rf, "", " ")
 		os.WriteFile(name, b, 0o644)
-		// determinism re-check: the same choice list must fail the same way in two fresh processes
+		// determinism re-check: the same choice list is replayed in fresh processes and must fail again. A replay that
+		// fails with another key of the same property still counts (a defect that reads stale or out-of-bounds memory
+		// can change its symptom from run to run); a choice list that never fails again is a problem of the harness.
+		note := ""
 		if vr.level >= 0 {
-			k1 := replayOnce(name)
-			k2 := replayOnce(name)
-			if !contains(k1, k) || !contains(k2, k) {
+			same, other := 0, 0
+			for i := 0; i < 3 && same < 2; i++ {
+				ks := replayOnce(name)
+				if contains(ks, k) {
+					same++
+				} else if len(ks) > 0 {
+					other++
+				}
+			}
+			if same == 0 && other == 0 {
 				harnessBroken = true
-				fmt.Printf("HARNESS-ERROR: violation %q does not replay deterministically (replays gave %q and %q)\n", k, k1, k2)
+				fmt.Printf("HARNESS-ERROR: violation %q did not fail again in 3 replays in fresh processes\n", k)
 				continue
+			}
+			if same < 2 {
+				note = fmt.Sprintf(" [replays: %d with this key, %d with another key of %s]", same, other, id)
 			}
 		}
 		nviol++
 		lines = append(lines, fmt.Sprintf("VIOLATION property=%s replay=%s", id, name))
-		lines = append(lines, fmt.Sprintf("  key: %s  (level %d, %d executions)", k, vr.level, vr.v.Count))
+		lines = append(lines, fmt.Sprintf("  key: %s  (level %d, %d executions)%s", k, vr.level, vr.v.Count, note))
 		lines = append(lines, "  "+strings.ReplaceAll(tail(vr.v.Msg, 1500), "\n", "\n  "))
 		if len(vsamples) < 5 {
 			vsamples = append(vsamples, map[string]interface{}{"key": k, "labels": vr.v.Labels})
@@ -574,18 +587,19 @@ func drive(args []string) int {
 		"wall_s":      time.Since(start).Seconds(),
 		"violations":  nviol,
 	}
-	if !harnessBroken {
+	if !harnessBroken || nviol > 0 {
 		b, _ := json.MarshalIndent(ev, "", " ")
 		os.WriteFile(evPath, b, 0o644)
 	}
 	fmt.Printf("%s %s: levels=%v executions=%d nontrivial=%d states=%d transitions=%d outcomes=%d pruned=%d exhaustive=%v bound=%d violations=%d wall=%.1fs\n",
 		id, tier, runLevels, tot.Executions, tot.NonTrivial, tot.States, tot.Transitions, tot.Outcomes, tot.Pruned, tot.Exhaustive, tot.Bound, nviol, time.Since(start).Seconds())
 	os.RemoveAll(work)
+	if nviol > 0 {
+		// reproduced violations stand even if other candidates did not reproduce
+		return 1
+	}
 	if harnessBroken {
 		return 2
-	}
-	if nviol > 0 {
-		return 1
 	}
 	return 0
 }
